@@ -215,6 +215,7 @@ Proof.
 Qed.
 
 (* ================================================================== the loop *)
+(** = [oracle_text] of the model *)
 Definition oracle_out (W : World) (cmd : str) : str :=
   match run_capture W cmd with Some o => o | None => [] end.
 
@@ -444,31 +445,53 @@ Qed.
 Lemma dot_split_no_bq t : ~ In 96 t -> dot_split t = None.
 Proof. intros H. unfold dot_split. rewrite span_not_bq_all by exact H. reflexivity. Qed.
 
-Lemma dot_loop_S f W tok item output log :
-  dot_loop (S f) W tok item output log
+Lemma dot_loop_S f W tok item log :
+  dot_loop (S f) W tok item log
   = match dot_split tok with
     | None => Ok (if is_empty tok then item else item ++ tok, log)
     | Some (h, c, t) =>
-        let output' := match run_capture W c with Some out => trim out | None => output end in
-        let item' := item ++ h ++ output' in
-        if is_empty t then Ok (item', log ++ [c]) else dot_loop f W t item' output' (log ++ [c])
+        let item' := item ++ h ++ trim (oracle_text W c) in
+        if is_empty t then Ok (item', log ++ [c]) else dot_loop f W t item' (log ++ [c])
     end.
 Proof. reflexivity. Qed.
 
-(** one embedded backquote command: its trimmed output is spliced when the command plans;
-    when it does not, the PREVIOUS output (as it is) is spliced instead *)
-Theorem dot_loop_one : forall W h c t item output log f,
+(** one embedded backquote command: its trimmed output is spliced; when the command does not plan the
+    replacement is empty (no previous output is involved any more) *)
+Theorem dot_loop_one : forall W h c t item log f,
   ~ In 96 h -> ~ In 96 c -> c <> [] -> ~ In 96 t -> ~ In 10 t ->
-  dot_loop (S (S f)) W (h ++ 96 :: c ++ 96 :: t) item output log
-  = Ok (item ++ h ++ (match run_capture W c with Some o => trim o | None => output end) ++ t, log ++ [c]).
+  dot_loop (S (S f)) W (h ++ 96 :: c ++ 96 :: t) item log = Ok (item ++ h ++ trim (oracle_text W c) ++ t, log ++ [c]).
 Proof.
-  intros W h c t item output log f Hh Hc Hne Ht96 Ht10.
+  intros W h c t item log f Hh Hc Hne Ht96 Ht10.
   rewrite dot_loop_S. rewrite dot_split_mid by assumption. cbv zeta.
   destruct t as [|x t].
   - cbn [is_empty]. rewrite app_nil_r. reflexivity.
   - cbn [is_empty]. rewrite dot_loop_S. rewrite dot_split_no_bq by exact Ht96.
     cbn [is_empty]. rewrite <- !app_assoc. reflexivity.
 Qed.
+
+Theorem dot_loop_two : forall W h1 c1 h2 c2 t f,
+  ~ In 96 h1 -> ~ In 96 c1 -> c1 <> [] -> ~ In 96 h2 -> ~ In 10 h2 -> ~ In 96 c2 -> c2 <> [] -> ~ In 10 c2 ->
+  ~ In 96 t -> ~ In 10 t ->
+  dot_loop (S (S (S f))) W (h1 ++ 96 :: c1 ++ 96 :: h2 ++ 96 :: c2 ++ 96 :: t) [] []
+  = Ok (h1 ++ trim (oracle_text W c1) ++ h2 ++ trim (oracle_text W c2) ++ t, [c1; c2]).
+Proof.
+  intros W h1 c1 h2 c2 t f Hh1 Hc1 Hne1 Hh2 Hh2n Hc2 Hne2 Hc2n Ht96 Ht10.
+  rewrite dot_loop_S.
+  assert (Hn : ~ In 10 (h2 ++ 96 :: c2 ++ 96 :: t)).
+  { intros X. apply in_app_or in X as [X|[X|X]]; [tauto | discriminate |].
+    apply in_app_or in X as [X|[X|X]]; [tauto | discriminate | tauto]. }
+  rewrite (dot_split_mid h1 c1 (h2 ++ 96 :: c2 ++ 96 :: t) Hh1 Hc1 Hne1 Hn). cbv zeta.
+  match goal with
+  | |- context [@is_empty ?A ?x] => replace (@is_empty A x) with false by (destruct h2; reflexivity)
+  end.
+  rewrite dot_loop_one by assumption.
+  cbn [app]. rewrite <- !app_assoc. reflexivity.
+Qed.
+
+
+
+(* ================================================================== B. balanced scan (fix-5) *)
+
 
 (* ================================================================== the general splice *)
 (** the text BEFORE the substitution may contain dollars (none directly followed by an open paren) and
@@ -614,6 +637,7 @@ Print Assumptions dollar_loop_splices.
 Print Assumptions dollar_loop_unplannable.
 Print Assumptions dollar_loop_terminates.
 Print Assumptions dot_loop_one.
+Print Assumptions dot_loop_two.
 Print Assumptions should_do_needs_dollar_paren.
 Print Assumptions has_dollar_paren_no_dollar.
 Print Assumptions has_dollar_paren_no_paren.
